@@ -259,9 +259,56 @@ def redecode(ctx, rule='A5x'):
 def linked_collapse(ctx, rule='A5l'):
     fn = ctx.fn(f'{FAST}._get_selection_choice_is_forced')
     txt = FnText(ctx, fn)
-    ok = 'ChoiceConstraintType.LINKED' in txt and 'for i_dep in i_choices[1:]' in txt and \
-        'is_forced[i_dep] = True' in txt and \
-        'sorted([i_choice_nodes[node] for node in choice_constraint.nodes if node in i_choice_nodes])' in txt
+    # the stores that force a choice address `<positions>[1:]` (directly, or through a loop over it), and <positions>
+    # is sorted: the member that keeps its variable is the first one in choice order
+    unit = unit_functions(ctx.prog, fn)
+    fstores = [a_ for a_ in walk_fn(fn) if isinstance(a_, ast.Assign) and isinstance(a_.targets[0], ast.Subscript) and
+               isinstance(a_.value, ast.Constant) and a_.value.value is True and
+               norm(a_.targets[0].value).endswith('is_forced')]
+
+    def tail_of(e):
+        # `<name>[1:]` -> name
+        if isinstance(e, ast.Subscript) and isinstance(e.slice, ast.Slice) and e.slice.upper is None and \
+                e.slice.step is None and isinstance(e.slice.lower, ast.Constant) and e.slice.lower.value == 1 and \
+                isinstance(e.value, ast.Name):
+            return e.value.id
+        return None
+    pos_names = set()
+    for a_ in fstores:
+        idx = a_.targets[0].slice
+        nm = tail_of(idx)
+        if nm is None and isinstance(idx, ast.Name):
+            for lp in ast.walk(fn.node):
+                if isinstance(lp, ast.For) and isinstance(lp.target, ast.Name) and lp.target.id == idx.id:
+                    nm = tail_of(lp.iter)
+        pos_names.add(nm)
+
+    def definition(name):
+        ds = [a_.value for a_ in walk_fn(fn) if isinstance(a_, ast.Assign) and norm(a_.targets[0]) == name]
+        if ds:
+            return ds
+        # bound by a loop over a private generator helper: the yielded element at that position
+        for lp in ast.walk(fn.node):
+            if isinstance(lp, ast.For) and isinstance(lp.target, ast.Tuple) and isinstance(lp.iter, ast.Call):
+                names = [norm(e) for e in lp.target.elts]
+                h = next((u for u in unit[1:] if u.name == call_name(lp.iter)), None)
+                if name in names and h is not None:
+                    k = names.index(name)
+                    out = []
+                    for y in ast.walk(h.node):
+                        if isinstance(y, ast.Yield) and isinstance(y.value, ast.Tuple) and len(y.value.elts) > k:
+                            e = y.value.elts[k]
+                            if isinstance(e, ast.Name):
+                                out += [a_.value for a_ in walk_fn(h) if isinstance(a_, ast.Assign) and
+                                        norm(a_.targets[0]) == e.id]
+                            else:
+                                out.append(e)
+                    return out
+        return []
+    ok = bool(fstores) and None not in pos_names and 'ChoiceConstraintType.LINKED' in txt
+    for nm in pos_names:
+        ds = definition(nm) if nm else []
+        ok = ok and bool(ds) and all(isinstance(d, ast.Call) and call_name(d) == 'sorted' for d in ds)
     ctx.ob(rule, fkey(fn, rule, 'linked-all-but-first-forced'), ok, fn.where,
            'for a LINKED constraint every choice but the first (in choice order) is forced, i.e. exactly one '
            'design variable represents the linked group', '')
